@@ -356,30 +356,15 @@ void SQuIDS::Set_xrange(const std::vector<double>& xs){
 }
 
 unsigned int SQuIDS::Get_i(double xi) const{
-  double xl, xr;
-  unsigned int nr=nx-1;
-  unsigned int nl=0;
-
-  xl=x[nl];
-  xr=x[nr];
-
-  if(xi>xr || xi<xl)
+  if(xi>x[nx-1] || xi<x[0])
     throw std::runtime_error(" Error SQUIDS::Get_i :  value  out of bounds");
 
-  while((nr-nl)>1){
-    if(((nr-nl)%2)!=0){
-      if(nr<nx-1)nr++;
-      else if(nl>0)nl--;
-    }
-    if(xi<(xl+(xr-xl)/2)){
-      nr=nl+(nr-nl)/2;
-      xr=x[nr];
-    }else{
-      nl=nl+(nr-nl)/2;
-      xl=x[nl];
-    }
-  }
-  return nl;
+  //bisect on the node values themselves, so that non-uniform (e.g. logarithmic)
+  //grids and any number of nodes are handled: count the nodes which are <= xi
+  size_t n=std::distance(x.begin(),std::upper_bound(x.begin(),x.end(),xi));
+  if(n>=nx) //xi is the last node; it belongs to the last interval
+    n=nx-1;
+  return (n>0 ? n-1 : 0);
 }
 
 void SQuIDS::Set_GSL_step(gsl_odeiv2_step_type const* opt){
